@@ -62,6 +62,7 @@ structure LInstSt where
   procAt : List (Nat × Nat) := []          -- partition ↦ time the store processed (granted) that call
   lastFault : Nat := 0                     -- time of the last refused / errored / slow call
   provisioning : Bool := false
+  pendingShared : Option (Nat × Nat) := none  -- (instant, partition count) of a SetSharedCapacity whose re-provisioning is still owed
   inListener : Bool := false               -- the loop is held up inside a slow listener (before it recomputes the capacity)
   creates : Nat := 0                       -- number of (re-)provisionings so far
   needySince : Option Nat := none          -- holds fewer than min(target, parts) partitions continuously since then
@@ -118,7 +119,9 @@ def monitorLease (sc : LScn) (entries : List String) : List (String × String) :
           ({ s with target := tg, lastGiveMe := some (t, v), satisfied := decide (s.held.length ≥ min tg s.parts) } : LInstSt).reneedy t
       else if a == "r" then m := m.upd i fun s => { s with reserved := v }
       else if a == "c" then
-        if f.getD 5 "" == "ok" then m := m.upd i fun s => { s with shared := v }
+        if f.getD 5 "" == "ok" then
+          let want := ceilDiv v (effFactor (cfg i).factor)
+          m := m.upd i fun s => { s with shared := v, pendingShared := some (t, if want > 500 then 500 else want) }
       else if a == "S" then
         let res := f.getD 4 ""
         -- v1: only in the order Provision, Start, Stop - a resource that has been stopped never starts (again)
@@ -141,6 +144,9 @@ def monitorLease (sc : LScn) (entries : List String) : List (String × String) :
       if sc.gen == 2 && n3 != exp then m := m.add "C06" "partition-count-not-ceil-shared-over-factor"
       if sc.gen == 1 && n3 != want then m := m.add "C06" "partition-count-not-ceil-shared-over-factor"
       -- partitions beyond the new count stop being counted
+      m := m.upd i fun s => match s.pendingShared with
+        | some (_, cnt) => if cnt == n3 then { s with pendingShared := none } else s
+        | none => s
       m := m.upd i fun s =>
         let h := s.held.filter (· < n3)
         ({ s with parts := n3, held := h, provisioning := true, creates := s.creates + 1, satisfied := s.satisfied || decide (h.length ≥ min s.target n3) } : LInstSt).reneedy t
@@ -231,6 +237,15 @@ def monitorLease (sc : LScn) (entries : List String) : List (String × String) :
             -- (while CreatePartitions runs the published figure still reflects the partition list before the resize)
             if s.started && !s.provisioning && cap > s.reserved + fac * s.parts then
               m := m.add "C06" "capacity-above-reserved-plus-factor-times-partitions"
+            -- C17: a SetSharedCapacity is followed by a re-provisioning to the new count at the top of the next loop iteration
+            match s.pendingShared with
+            | some (t0, cnt) =>
+              let lat := (c.pre ++ c.post).foldl max 0 + c.slow
+              let mi := (if c.maxInterval == 0 then 500 else c.maxInterval) * 1000000
+              if s.started && s.shutdownAt.isNone && !s.stopAsked && !s.crashed && !s.provisioning && s.parts != cnt &&
+                  t0 + 2 * (mi + lat) + 20000000000 ≤ t then
+                m := m.add "C17" "set-shared-capacity-not-followed-by-re-provisioning"
+            | none => pure ()
             -- C06: MaxCapacity()
             let expMax := if sc.gen == 2 then s.reserved + (if s.shared > fac * 500 then fac * 500 else s.shared) else s.reserved + s.shared
             if s.started && mx != expMax then m := m.add "C06" "max-capacity"
